@@ -12,6 +12,25 @@ CHECKS = json.load(open(os.path.join(HERE, 'harness', 'checks.json'), encoding='
 NOT_YET = {}
 
 
+def source_tie_sentence(pid):
+    import glob, re, sys
+    sys.path.insert(0, os.path.join(HERE, 'harness'))
+    import src_sites
+    anchors = src_sites.ANCHORS.get(pid, [])
+    ns = sum(len(a['sites']) for a in anchors)
+    f = os.path.join(HERE, 'lean', 'OutrankModel', 'Props', 'Src', f'{pid}.lean')
+    nt = len(re.findall(r'^theorem ', open(f, encoding='utf-8').read(), flags=re.M)) if os.path.exists(f) else 0
+    s = (f' SOURCE TIE (DESIGN §11.1, every run): the {len(anchors)} anchored functions are re-read with Python ast; their statement '
+         'skeletons must equal the committed ones')
+    if ns:
+        s += (f', and {ns} decision / arithmetic expressions are translated into Gen/Src/{pid}.lean and re-proved equal to the '
+              f"model's expressions by the {nt} bridge theorems of Props/Src/{pid}.lean (a changed operator, bound or constant breaks a "
+              'theorem; an equivalent rewrite still checks)')
+    else:
+        s += ' (no translated expression sites for this property)'
+    return s + '; a differing skeleton or failed bridge theorem is a broken tie handled as §2.3.'
+
+
 def main():
     props = [json.loads(l) for l in open(os.path.join(HERE, 'properties.jsonl'))]
     checks = []
@@ -27,7 +46,7 @@ def main():
                 'evidence_file': f'evidence/{pid}.json',
                 'replay_cmd_template': f'./check {pid} replay {{path}}',
                 'engine': 'lean4-model+correspondence',
-                'level_claimed': {'category': 'proof', 'text': c['text'], 'design_ref': c['design']},
+                'level_claimed': {'category': 'proof', 'text': c['text'].rstrip() + source_tie_sentence(pid), 'design_ref': c['design']},
                 'level_note': c.get('note', LEVEL_NOTE),
                 'technique': c['technique'],
             })
